@@ -41,15 +41,17 @@ theorem admitA_exLive (s : Server) (i : Nat) (k : Connect) (e : Nat) (h : (admit
 theorem admitClient_inv {s : Server} {i conn : Nat} {k : Connect} (h : SyncInvX (· = i) s) (hw : WF s)
     (hi : i < s.objs.length) (hid : (getObj s i).id = k.id) (hunreg : ∀ c, assocGet s.clients c ≠ some i)
     (hpi : ∀ p ∈ s.pending, p.obj ≠ i) (hto : (getObj s i).takenOver = false) :
-    SyncInv (admitClient s i conn k).1 ∧ Lst s (admitClient s i conn k).1 := by
+    SyncInv (admitClient s i conn k).1 ∧ Lst s (admitClient s i conn k).1 ∧
+      (k.clean = true → (getObj (admitClient s i conn k).1 i).subs = (getObj s i).subs) := by
   unfold admitClient
   split
   rename_i s1 o1 present exLive h1
-  obtain ⟨a1, l1, t1⟩ := admitA_inv (k := k) h hw hi hid hunreg hpi hto
+  obtain ⟨a1, l1, t1, c1⟩ := admitA_inv (k := k) h hw hi hid hunreg hpi hto
   have hex := admitA_exLive s i k
   have k1 := admitA_keep s i k
   have w1 := admitA_wf s i k hw hi hid
-  rw [h1] at a1 l1 t1 hex k1 w1
+  rw [h1] at a1 l1 t1 hex k1 w1 c1
+  have c1 : k.clean = true → (getObj s1 i).subs = (getObj s i).subs := c1
   have a1 : SyncInv s1 := a1
   have l1 : Lst s s1 := l1
   have k1 : Keep s s1 := k1
@@ -65,10 +67,12 @@ theorem admitClient_inv {s : Server} {i conn : Nat} {k : Connect} (h : SyncInvX 
   have a2 : SyncInv s2 := a1.of_quiet q2
   split
   rename_i s3 o4 h3
-  have a3 : SyncInv s3 ∧ Lst s2 s3 ∧ WF s3 := by
+  have a3 : SyncInv s3 ∧ Lst s2 s3 ∧ WF s3 ∧ (getObj s3 i).subs = (getObj s2 i).subs := by
     split at h3
     · rename_i e
       obtain ⟨e1, e2, e3, e4⟩ := hex e rfl
+      have hie : i ≠ e := fun x => hunreg k.id (x ▸ e1)
+      have hiso := (detach_isolation s2 e i true hie).subs
       have he_lt : e < s.objs.length := (hw.clients_valid k.id e (assocGet_mem _ _ _ e1)).1
       have hnp : e ∉ s.parked := fun hm => by rw [h.parkedStopped e hm] at e2; cases e2
       have := detach_inv a2 w2 e (by rw [q2.len, k1.len]; exact he_lt) true (fun x => by cases x)
@@ -76,16 +80,18 @@ theorem admitClient_inv {s : Server} {i conn : Nat} {k : Connect} (h : SyncInvX 
         (Or.inl (by rw [(q2.obj e).takenOver]; exact t1 e e1))
       have hl := detach_lst s2 e true
       have hwf := detach_wf s2 e true w2
-      rw [h3] at this hl hwf
-      exact ⟨this, hl, hwf⟩
+      rw [h3] at this hl hwf hiso
+      exact ⟨this, hl, hwf, hiso.symm⟩
     · cases h3
-      exact ⟨a2, Lst.refl _, w2⟩
+      exact ⟨a2, Lst.refl _, w2, rfl⟩
   split
   rename_i s4 o3 h4
   have q4 : Quiet s3 s4 := by
     have := admitC_quiet s3 i k present
     rw [h4] at this; exact this
-  exact ⟨a3.1.of_quiet q4, ((l1.trans q2.lst).trans a3.2.1).trans q4.lst⟩
+  refine ⟨a3.1.of_quiet q4, ((l1.trans q2.lst).trans a3.2.1).trans q4.lst, fun hcl => ?_⟩
+  rw [(q4.obj i).subs, a3.2.2.2, (q2.obj i).subs]
+  exact c1 hcl
 
 /-- a new client object and its connection-table entry -/
 theorem SyncInv.addObj {s : Server} (h : SyncInv s) (hw : WF s) (c : Client) (conn : Nat)
@@ -170,7 +176,8 @@ theorem connect_inv {s : Server} (h : SyncInv s) (hw : WF s) (conn : Nat) (k : C
     (hf : conn ∉ s.connOf.map (·.1)) :
     SyncInv (connect s conn k).1 ∧ Lst s (connect s conn k).1 ∧
       (connect s conn k).1.pending = s.pending ∧
-      (connect s conn k).1.connOf = s.connOf ++ [(conn, s.objs.length)] := by
+      (connect s conn k).1.connOf = s.connOf ++ [(conn, s.objs.length)] ∧
+      (k.clean = true → (getObj (connect s conn k).1 s.objs.length).subs = []) := by
   unfold connect
   extract_lets +onlyGivenNames c i s1
   have w1 : WF s1 := hw.addObj c conn (parseConnect_wf s conn k) hf
@@ -191,7 +198,8 @@ theorem connect_inv {s : Server} (h : SyncInv s) (hw : WF s) (conn : Nat) (k : C
     have hst : (getObj s2 i).stopped = true := by
       have := stopClient_stopped s1 i hi
       rw [h2] at this; exact this
-    refine ⟨(h1.of_quiet q2).weaken ?_, ⟨q2.parked, q2.parkedEarly⟩, q2.pending, q2.connOf⟩
+    refine ⟨(h1.of_quiet q2).weaken ?_, ⟨q2.parked, q2.parkedEarly⟩, q2.pending, q2.connOf,
+      fun _ => by rw [(q2.obj i).subs, hci]; rfl⟩
     intro k' _ hx _ ha _ _
     have hx : k' = i := hx
     subst hx
@@ -207,9 +215,9 @@ theorem connect_inv {s : Server} (h : SyncInv s) (hw : WF s) (conn : Nat) (k : C
       have := (hw.pending_valid p hp).1
       rw [e] at this
       exact Nat.lt_irrefl _ this
-    obtain ⟨a, l⟩ := admitClient_inv (conn := conn) (k := k) h1 w1 hi hid hunreg hpi (by rw [hci]; rfl)
+    obtain ⟨a, l, cs⟩ := admitClient_inv (conn := conn) (k := k) h1 w1 hi hid hunreg hpi (by rw [hci]; rfl)
     have kp := (admitClient_wf s1 i conn k w1 hi hid).2
-    exact ⟨a, ⟨l.parked, l.parkedEarly⟩, kp.pending, kp.connOf⟩
+    exact ⟨a, ⟨l.parked, l.parkedEarly⟩, kp.pending, kp.connOf, fun hcl => by rw [cs hcl, hci]; rfl⟩
 
 /-! ### `clearExpiredClients` -/
 
@@ -571,7 +579,7 @@ theorem connectHold_inv {s : Server} (h : SyncInv s) (hw : WF s) (conn : Nat) (k
     · exact park1 _ rfl rfl rfl
     · split
       rename_i s2 o1 present exLive hA
-      obtain ⟨a2, l2, t2⟩ := admitA_inv (k := k) h1 w1 hi hid hunreg hpi hto
+      obtain ⟨a2, l2, t2, _⟩ := admitA_inv (k := k) h1 w1 hi hid hunreg hpi hto
       have hex := admitA_exLive s1 i k
       have k2 := admitA_keep s1 i k
       have w2 := admitA_wf s1 i k w1 hi hid
@@ -636,7 +644,7 @@ theorem connectRelease_inv {s : Server} (p : Pending) (h : SyncInvX (· = p.obj)
       · rw [hst] at ha; cases ha
       · rw [q2.parked] at ha; exact absurd ha hnpk
       · rw [q2.parkedEarly] at ha; exact absurd ha hnpe
-    · exact admitClient_inv h hw hi hid hunreg hpi hto
+    · exact ⟨(admitClient_inv h hw hi hid hunreg hpi hto).1, (admitClient_inv h hw hi hid hunreg hpi hto).2.1⟩
   · rename_i hs1
     have hs1 : p.stage ≠ 1 := by simpa using hs1
     have a := h2 hs1
